@@ -3,7 +3,7 @@ from vcommon import *
 import scen_common
 
 PID = "C08"
-PROP_V = ["Props/Properties_C08.v", "Props/Properties_C08b.v"]
+PROP_V = ["Props/Properties_C08.v", "Props/Properties_C08b.v", "Props/Properties_C08c.v"]
 GEN_MODULES = ["Consts", "Sites"]
 FLOW_FILES = ['note.c', 'sem_wait.c']
 REPLAY_HINT = "VRT_SEED=<seed> VRT_FAMILY=<f> _work/h/note_mix"
@@ -13,7 +13,15 @@ PARTIAL = ["C08_descendants is PROVED in its creation-time form (Properties_C08b
            "note and every strict creation ancestor: the ancestor is dead and un-notified, or the note's current parent still lies below it -- "
            "preserved across adoption by nsync_note_free, the unlink at the end of note_notify_child, and nsync_note_new under a notified or expired "
            "parent) and a well-founded climb along the current parent links; the proof uses the repairs F7, F10, F11 (a dead note is never notified).  "
-           "Quiet is 'no note_notify_child frame on any stack'; that a notification in progress terminates is C09's progress statement",
+           "`quiet` there is GLOBAL (no notify / note_notify_child / free frame on any stack); the LOCAL form is Properties_C08c.C08_descendants_path: the ancestor only has to be "
+           "OBSERVED notified (also by an expiry at or before the epoch) and the side condition is quiet_for w m a = no note_notify_child frame on a note of the creation path "
+           "between m and a, and m not already unlinked by its own nsync_note_free (both halves needed: C08_path_quiet_alone_refuted, C08_not_unlinked_alone_refuted); "
+           "notifies of other notes, frees of other (also intermediate) notes and pollers may be in progress.  'every thread waiting on them is released': C08_waiter_armed "
+           "(a thread in nsync_note_wait's semaphore wait on m is still queued on m, or a notifier is at the store / the V for it, or its semaphore is positive -- every "
+           "reachable world), C08_waiters_released (m observed notified and no notification of m in progress => the waiter's semaphore is positive), joined with the "
+           "descendants clause in C08_descendants_waiters_released; a model variant whose note_notify_child does not post falsifies it "
+           "(C08_waiters_released_variant_refuted); non-vacuity: C08_descendants_nonvacuous (tree 0 -> 1 -> 2, a waiter on 2, free (1) interleaved with notify (0), an "
+           "unrelated notification left in progress).  That a notification in progress terminates is C09's progress statement (C09_no_stuck_strong)",
            "the literal reading of the expiry clause ('minimum of the abs_deadline values') is refuted by design: an explicitly notified "
            "ancestor counts as deadline zero (C08_expiry_literal_refuted); the clause is proved under that reading (C08_expiry)"]
 TRUSTED_BASE = ["Model/NoteModel.v control skeleton (note.c incl. the repairs F4, F7, F10, F11, F12): hand-written, validated by lock-step replay "
